@@ -289,3 +289,46 @@ PROPS["C20"] = {
          "thorough": {"shards": 32, "checks": 4000, "cap": 14400, "shrinktime": "120s"}},
     ],
 }
+
+PROPS["C18"] = {
+    "level": "exploration",
+    "rule": ("interrupts: a generated workspace (1-7 targets, dir outputs, 1-4 workers) whose commands sleep 0-900 ms between their S and E trace lines, optionally with a warm cache and changed commands; the real binary is sent SIGINT or SIGTERM (to the process or, like a terminal, to its process group) "
+             "at an offset stratified over start-up, execution and the tail of the build (0-3.6 s). Oracles: exit within 15 s of the signal; no crash dump; exit != 0 whenever some selected target never reached its E line; no trace line appears after grog has exited (no surviving target shell); "
+             "the follow-up build finishes (lock is acquired), exits 0, executes every target that did not finish (nothing was recorded for it) and leaves byte-exact outputs. "
+             "Non-trivial = the signal arrived while >=1 target was between S and E; distinct by full case."),
+    "assumptions": [
+        "signal timing is sampled, not enumerated; phases are only classified afterwards from the trace",
+        "15 s against a mechanism that takes ~0.5-1.5 s (1 s WaitDelay) and commands that would otherwise sleep; a loaded machine cannot bridge that gap",
+    ],
+    "nt_floor": 0.2,
+    "parallel": 32,
+    "parts": [
+        {"name": "interrupts", "pkg": "c18", "test": "TestInterrupts", "binary": True,
+         "quick": {"shards": 32, "checks": 128, "cap": 1500, "shrinktime": "60s"},
+         "thorough": {"shards": 32, "checks": 3000, "cap": 14400, "shrinktime": "120s"}},
+    ],
+}
+
+PROPS["C07"] = {
+    "level": "fault_enumeration",
+    "rule": ("backend-ops: rapid sequences of 1-8 operations on the real FileSystemCache: complete writes, writes whose reader fails at chunk k, pairs of CONCURRENT writes of one key whose readers are gated chunk by chunk by a generated interleaving (one of them optionally failing), deletes; after every operation each key must be absent or hold exactly one complete content of a completed write (never a prefix, never a mixture). "
+             "crash-in-set: a child process dies from SIGKILL inside Set after k chunks (k = 0..12), over an absent or an existing key; afterwards the key holds the old complete content, the new complete content, or nothing. "
+             "kill-histories: real-binary histories (targets with 0.2-3 MiB outputs, dir outputs, blobs shared between targets) where builds are killed with SIGKILL (whole process group) after 0-1500 ms or run with an unwritable blob store; after EVERY invocation the cache directory is audited "
+             "(each cas/<d> re-hashes to d; each target/<k> decodes, has change_hash k and references only present blobs incl. every file node of every tree) and every later fault-free build must exit 0 with byte-exact outputs. "
+             "Non-trivial = backend-ops: a failed or concurrent write occurred; crash: always; kill-histories: the kill landed while a target was running or after one finished, or a storage fault was injected; distinct by full case."),
+    "assumptions": [
+        "leftover tmp-* files are not visible under any key and are not violations",
+        "kill times are sampled (no yield points inside the binary); the in-process parts enumerate chunk positions 0..12 of the copy loop",
+        "a follow-up build may re-execute anything (MAY after faults); only exit status, bytes and cache consistency are asserted",
+    ],
+    "nt_floor": 0.2,
+    "parallel": 32,
+    "parts": [
+        {"name": "backend-ops", "pkg": "c07", "test": "TestBackendOps",
+         "quick": {"shards": 8, "checks": 4000, "cap": 900}, "thorough": {"shards": 16, "checks": 100000, "cap": 7200}},
+        {"name": "crash-in-set", "pkg": "c07", "test": "TestCrashInSet",
+         "quick": {"shards": 8, "checks": 400, "cap": 900}, "thorough": {"shards": 16, "checks": 8000, "cap": 7200}},
+        {"name": "kill-histories", "pkg": "c07", "test": "TestKillHistories", "binary": True,
+         "quick": {"shards": 32, "checks": 64, "cap": 1500, "shrinktime": "90s"}, "thorough": {"shards": 32, "checks": 1600, "cap": 14400, "shrinktime": "300s"}},
+    ],
+}
